@@ -12,7 +12,7 @@ HARNESSES = [
 ]
 # repaired: the behaviour the theorems are proved for.  The others reproduce the recorded defects, one at a
 # time and all together, so that fixing one of them upstream does not turn the others into false alarms.
-VARIANTS = ["repaired", "def_restore"]
+VARIANTS = ["repaired", "def_rguard"]
 RULE = ("ipcp/lcp/v6: ProcessConfReq called directly; every option list of length <= 2 (quick) / 3 (thorough) over a "
         "structured alphabet (implemented + unknown types, data lengths 0,1,2,3,4,5,6,8,9,253, values assigned / zero / "
         "local / near-miss / other) against every configuration class (assigned nil / 4-byte / 16-byte mapped / 0.0.0.0 / "
@@ -359,7 +359,9 @@ def gen_cases(rng, tier, budget):
                 if na != "none" and na not in bad_aaas:
                     assigned = na[-8:]
                     reqs = reqs + [[opt(3, assigned)], [opt(3, assigned)], [opt(3, assigned), opt(129, "08080808")]]
-            elif r < 0.05:
+            elif r < 0.09:
+                evs.append("D")      # the subscriber renegotiates LCP (real onLCPDown), no new AAA answer yet
+            elif r < 0.13:
                 evs.append(rng.choice(["t%d" % rng.randrange(256), "t7", "Sa" + wire([opt(3, "06060606")]),
                                        "Sn" + wire([opt(129, "01010101")]), "Sj" + wire([opt(129, "08080808")]), "o"]))
             elif r < 0.3:
@@ -395,6 +397,9 @@ def gen_cases(rng, tier, budget):
         if i % 5 == 3 and aaa != "none" and aaa not in bad_aaas:
             # the same history on a session restored from a checkpoint (installInMemoryState) with that address
             cases.append("sess restore:%s %s" % (aaa[-8:], " ".join(e for e in evs)))
+        if i % 25 == 4:
+            # a checkpoint that does not hold a usable IPv4 address
+            cases.append("sess restore:%s %s" % (rng.choice(["00000000", V6, "00" * 16]), " ".join(evs)))
         if i % 2 == 0:
             # the same history against the LNS owner of the IPCP object (no reservation step there)
             cases.append("lns %s %s" % (start.replace("/cf", "/ok"), " ".join(e.replace("/cf", "/ok") for e in evs)))
@@ -417,6 +422,8 @@ def gen_cases(rng, tier, budget):
                 evs.append("n" + wire(rng.choice([[opt(1, "0200000000000009")], [opt(1, "00" * 8)], [opt(1, "0102")]])))
             elif r < 0.92:
                 evs.append("j" + wire(rng.choice([[opt(1, "0200000000000009")], [opt(2, "00")]])))
+            elif r < 0.96:
+                evs.append("D")
             else:
                 evs.append("R")
         if i % 5 == 0:
@@ -682,7 +689,7 @@ def _monitor(case, impl, out):
                                 if ty == 3 and "h" + d != pa:
                                     hit("Configure-Ack carries address %s while %s is assigned" % (d, pa))
 
-SIG_RESTORE = "restored-session-ipcp-has-nothing-assigned"
+SIG_RESTORE = "restore-unusable-address-restores-ipcp"
 
 
 def _recorded():
@@ -717,8 +724,8 @@ def classify(case, impl, model):
 
 def signature(case, impl, models):
     f = case.split()
-    if f[0] == "sess" and f[1].startswith("restore:") and impl == models.get("def_restore"):
-        return "restored-session-ipcp-has-nothing-assigned"
+    if f[0] == "sess" and f[1].startswith("restore:") and impl == models.get("def_rguard"):
+        return SIG_RESTORE
     return None
 
 
